@@ -24,6 +24,7 @@ def repo_root() -> Path:
 
 
 PKG_REL = 'src/mpservice'
+LOOKUP_LOG: set | None = None  # tools/gen_anchors.py sets this to record which functions the rules look up
 
 
 @dataclass
@@ -127,6 +128,18 @@ class Module:
         self.classes: dict[str, ClassInfo] = {}
         self.imports: dict[str, str] = {}
         self._index(self.tree.body, '', None, None)
+        # functions a rule looks up by name that were renamed consistently are read under their recorded name
+        self.renamed: list = []
+        if not os.environ.get('MPSA_NO_RENAME_TOLERANCE'):
+            from .anchors import reconcile
+
+            for _ in range(4):
+                got = reconcile(self)
+                if not got:
+                    break
+                self.renamed.extend(got)
+                self.functions, self.classes = {}, {}
+                self._index(self.tree.body, '', None, None)
         for node in ast.walk(self.tree):
             if isinstance(node, ast.Import):
                 for a in node.names:
@@ -167,6 +180,8 @@ class Module:
 
     # -- anchors -------------------------------------------------------
     def func(self, qualname) -> FuncInfo:
+        if LOOKUP_LOG is not None:
+            LOOKUP_LOG.add((self.rel, qualname))
         try:
             return self.functions[qualname]
         except KeyError:
